@@ -58,6 +58,7 @@ type Func struct {
 	Fn      *ssa.Function
 	Env     []Value
 	Builtin *ssa.Builtin
+	Model   func(ex *Exec, fr *frame, args []Value) Value // model closure (e.g. a context cancel func)
 }
 
 type MapEntry struct {
